@@ -41,7 +41,9 @@ for p in props:
         prev.append(json.load(open(m))['needs_to_manifest'])
     if suffix and prev:
         taken = '\nALREADY TAKEN (another engineer has already produced a change for this property; yours must break a DIFFERENT clause or a different code path, not a variation of it): the earlier change(s) manifest with: ' + ' | '.join(prev) + '\n'
-    if suffix >= 'e':
+    if suffix >= 'f':
+        taken += ('\nFLAVOUR REQUIRED FOR THIS ROUND: the breakage must come from a WELL-MEANT OPTIMISATION or from an ERROR / CLEAN-UP / RETRY PATH. Either (1) a cache, memo, fast path, early return, lazily built or pre-computed value, reused buffer or object, batching, or a skipped re-validation whose result differs from the ordinary (slow) path for SOME inputs or AFTER some earlier event - while the first operation on fresh state and typical inputs give exactly the old result; or (2) the handling of a failure, cancellation, time-out, retry, shutdown or early client departure that leaves something behind (a counter, a registration, a deadline, buffered bytes, a half-open connection, a flag) so that a LATER, perfectly ordinary operation on the same proxy / connection / object misbehaves. Runs in which nothing fails and nothing is reused must behave exactly as before.\n')
+    elif suffix >= 'e':
         taken += ('\nFLAVOUR REQUIRED FOR THIS ROUND: the breakage must be a FEATURE-INTERACTION defect - it manifests only when TWO OR MORE features, options or protocol variants are combined (for example: MITM together with an upstream proxy; a TLS or PROXY-protocol listener together with CONNECT; header rules together with Upgrade; basic auth together with keep-alive reuse; HTTP/1.0 or pipelined or 100-continue or HEAD or trailers together with gzip, chunking or a particular routing; two flags that each work alone), or only for a LESS COMMON PROTOCOL VARIANT of an otherwise ordinary exchange. Each feature used on its own, and the default configuration, must behave exactly as before.\n')
     elif suffix >= 'd':
         taken += ('\nFLAVOUR REQUIRED FOR THIS ROUND: the breakage must be a BOUNDARY or PARTIAL-FAILURE defect - it manifests only at a boundary value (a size, count, offset, length, port, time or number exactly at, one below or one past some limit: a buffer size, a window, a maximum, zero, the first or last element, an empty or maximal field) or only when an I/O operation fails or completes PARTIALLY at one particular point (a short read or short write, an error from the n-th call, a peer that closes between two specific steps, an ignored error return, a retry that repeats a side effect). Typical in-range inputs and runs in which every I/O call succeeds completely must behave exactly as before.\n')
